@@ -391,3 +391,70 @@ M("c08-start-from-corrected", "C08", ISO, "        exons = read_list_of_pairs(in
 M("c08-silent-rename-list", "C08", MRM, None, None, expect="silent", note="rename an index list",
   edits=[(MRM, "        noninformative = []\n", "        uninformative = []\n"), (MRM, "                noninformative.append(i)", "                uninformative.append(i)"),
          (MRM, "        if noninformative:\n            return self.select_noninformative(assignment_list, noninformative)", "        if uninformative:\n            return self.select_noninformative(assignment_list, uninformative)")])
+
+# ---------------------------------------------------------------- C05
+M("c05-drop-long-reads", "C05", AP, "            alignment_info.add_polya_info(self.polya_finder, self.polya_fixer)\n            if self.params.cage:\n                alignment_info.add_cage_info(self.cage_finder)\n            alignment_info.construct_profiles(profile_constructor)",
+  "            if len(alignment_info.read_exons) > 30:\n                continue\n            alignment_info.add_polya_info(self.polya_finder, self.polya_fixer)\n            if self.params.cage:\n                alignment_info.add_cage_info(self.cage_finder)\n            alignment_info.construct_profiles(profile_constructor)",
+  rule="D1", note="reads with > 30 exons silently dropped")
+M("c05-drop-by-coordinate", "C05", AP, "            read_id = alignment.query_name\n            logger.debug(\"=== Processing read \" + read_id + \" ===\")",
+  "            if alignment.reference_start % 256 == 0:\n                continue\n            read_id = alignment.query_name\n            logger.debug(\"=== Processing read \" + read_id + \" ===\")",
+  rule="D1", note="drop depends on a coordinate")
+M("c05-append-conditional", "C05", AP, "            assignment_storage.append(read_assignment)\n            logger.debug(\"=== Finished read \" + read_id + \" ===\")",
+  "            if read_assignment.isoform_matches:\n                assignment_storage.append(read_assignment)\n            logger.debug(\"=== Finished read \" + read_id + \" ===\")",
+  rule="D1", note="append made conditional")
+M("c05-break-region-loop", "C05", AP, "                alignments = alignment_storage.get_alignments(new_region)\n                yield self.process_alignments_in_region(new_region, alignments)",
+  "                alignments = alignment_storage.get_alignments(new_region)\n                yield self.process_alignments_in_region(new_region, alignments)\n                if new_region[1] - new_region[0] > 10000000:\n                    break",
+  rule="D3", note="region loop can exit early")
+M("c05-sibling-filter", "C05", AP, "            if self.params.min_mapq and alignment.mapping_quality < self.params.min_mapq:\n                continue\n\n            read_id = alignment.query_name\n            alignment_info = AlignmentInfo(alignment)",
+  "            read_id = alignment.query_name\n            alignment_info = AlignmentInfo(alignment)", rule="D2", note="min_mapq filter removed from intergenic regions only")
+M("c05-stats-not-partition", "C05", AP, "            elif alignment.is_supplementary:\n                self.alignment_stat_counter.add(AlignmentType.supplementary)\n            elif alignment.reference_id != -1:",
+  "            if alignment.is_supplementary:\n                self.alignment_stat_counter.add(AlignmentType.supplementary)\n            elif alignment.reference_id != -1:",
+  rule="D4", note="secondary records counted twice (elif -> if)")
+M("c05-no-final-flush", "C05", AP, "        if alignment_storage.region:\n            for res in self.forward_alignments(alignment_storage):\n                yield res\n\n    def forward_alignments",
+  "    def forward_alignments", rule="D3", note="last region of the chromosome never processed")
+M("c05-printer-checker", "C05", DSP, "            self.basic_printer = BasicTSVAssignmentPrinter(sample.out_assigned_tsv, self.args, self.io_support,\n                                                           additional_header=self.common_header, gzipped=gzipped)",
+  "            self.basic_printer = BasicTSVAssignmentPrinter(sample.out_assigned_tsv, self.args, self.io_support,\n                                                           additional_header=self.common_header, gzipped=gzipped)\n            self.basic_printer.assignment_checker = None",
+  rule="D1", note="printer filter rebound to None after construction: nothing is printed")
+M("c05-silent-nested-if", "C05", AP, "            if alignment.reference_id == -1 or alignment.is_supplementary or \\\n                    (self.params.no_secondary and alignment.is_secondary):\n                continue\n\n            if self.params.min_mapq and alignment.mapping_quality < self.params.min_mapq:\n                continue\n\n            read_id = alignment.query_name\n            logger.debug",
+  "            if alignment.reference_id == -1:\n                continue\n            if alignment.is_supplementary:\n                continue\n            if self.params.no_secondary:\n                if alignment.is_secondary:\n                    continue\n\n            if self.params.min_mapq and alignment.mapping_quality < self.params.min_mapq:\n                continue\n\n            read_id = alignment.query_name\n            logger.debug",
+  expect="silent", note="compound condition rewritten as nested ifs")
+
+# ---------------------------------------------------------------- C07
+M("c07-revert-tmp-close", "C07", DSP, "    tmp_printer.close()\n\n    logger.info(\"Finished processing chromosome \" + chr_id)", "    logger.info(\"Finished processing chromosome \" + chr_id)",
+  rule="R1", note="revert: temp-file printer open (terminator unwritten) when _collected is created")
+M("c07-revert-agg-close", "C07", DSP, "    aggregator.close()\n    tmp_gff_printer.close()", "    tmp_gff_printer.close()", rule="R1",
+  note="revert: BED/TSV printers of the aggregator open at the _processed marker")
+M("c07-marker-before-dump", "C07", DSP, None, None, rule="R4", note="marker moved above the dump of the counters",
+  edits=[(DSP, "    aggregator.global_counter.dump()\n    aggregator.read_stat_counter.dump(read_stat_file)\n",
+          "    open(lock_file, \"w\").close()\n    aggregator.global_counter.dump()\n    aggregator.read_stat_counter.dump(read_stat_file)\n"),
+         (DSP, "    logger.info(\"Finished processing chromosome \" + chr_id)\n    open(lock_file, \"w\").close()\n\n    return aggregator.read_stat_counter, transcript_stat_counter",
+          "    logger.info(\"Finished processing chromosome \" + chr_id)\n\n    return aggregator.read_stat_counter, transcript_stat_counter")])
+M("c07-new-printer-no-close", "C07", DSP, "    novel_model_storage = []\n\n    loader = ReadAssignmentLoader(chr_dump_file, gffutils_db, current_chr_record, multimapped_reads)",
+  "    novel_model_storage = []\n    extra_bed_printer = BEDPrinter(chr_dump_file + \".raw.bed\", args)\n\n    loader = ReadAssignmentLoader(chr_dump_file, gffutils_db, current_chr_record, multimapped_reads)",
+  rule="R1", note="a new printer added to the chromosome task and never closed")
+M("c07-close-conditional", "C07", DSP, "    aggregator.close()\n    tmp_gff_printer.close()", "    if construct_models:\n        aggregator.close()\n    tmp_gff_printer.close()", rule="R1",
+  note="close made conditional: with --no_model_construction the printers stay open at the marker")
+M("c07-class-close-incomplete", "C07", "src/transcript_printer.py", "        if self.output_r2t and not self.out_r2t.closed:\n            self.out_r2t.close()\n\n    def dump(self",
+  "\n    def dump(self", rule="R1", note="GFFPrinter.close() forgets the read-to-model map handle")
+M("c07-terminator-in-del", "C07", "src/assignment_io.py", "    def __del__(self):\n        self.close()\n\n    # writes the stream terminator; must be called before the file is declared complete\n    def close(self):\n        if not self.dumper.closed:\n            write_short_int(SHORT_TERMINATION_INT, self.dumper)\n            self.dumper.close()",
+  "    def __del__(self):\n        write_short_int(SHORT_TERMINATION_INT, self.dumper)\n        self.close()\n\n    def close(self):\n        if not self.dumper.closed:\n            self.dumper.close()",
+  rule="R1", note="terminator written by __del__ only")
+M("c07-revert-merge-invalidate", "C07", DSP, "        clean_locks(chr_ids, dump_filename, reads_processed_lock_file_name)\n        if not self.args.no_model_construction:\n            self.merge_transcript_models",
+  "        if not self.args.no_model_construction:\n            self.merge_transcript_models", rule="R2", note="revert: parts merged/deleted with live _processed markers")
+M("c07-revert-cleanup-order", "C07", DSP, "            clean_locks(chr_ids, saves_file, reads_collected_lock_file_name)\n", "", rule="R2",
+  note="clean-up deletes save files while _collected markers may remain")
+M("c07-revert-gunzip-atomic", "C07", DSP, "                        with open(tmp_reference, \"w\") as outf:\n                            shutil.copyfileobj(gzip.open(self.args.reference, \"rt\"), outf)\n                        os.replace(tmp_reference, gunzipped_reference)",
+  "                        with open(gunzipped_reference, \"w\") as outf:\n                            shutil.copyfileobj(gzip.open(self.args.reference, \"rt\"), outf)", rule="R3",
+  note="revert: reference gunzipped in place, reused by --resume if it exists")
+M("c07-skip-on-artefact", "C07", DSP, "    if os.path.exists(lock_file) and args.resume:\n        logger.info(\"Processed assignments from chromosome \" + chr_id + \" detected\")",
+  "    if os.path.exists(read_stat_file) and args.resume:\n        logger.info(\"Processed assignments from chromosome \" + chr_id + \" detected\")", rule="R3",
+  note="stage 2 skipped because a statistics file exists")
+M("c07-remove-elsewhere", "C07", "src/long_read_counter.py", "    def dump_ungrouped(self, all_features):\n        with self.get_output_file_handler() as output_file:",
+  "    def dump_ungrouped(self, all_features):\n        if os.path.exists(self.output_tpm_file_name):\n            os.remove(self.output_tpm_file_name)\n        with self.get_output_file_handler() as output_file:",
+  rule="R2", note="files removed outside the known consumers")
+M("c07-silent-with", "C07", DSP, "    info_dumper = open(info_file, \"wb\")\n        write_int(total_assignments, info_dumper)\n        write_int(polya_assignments, info_dumper)\n        write_list(list(all_read_groups), info_dumper, write_string)\n        info_dumper.close()",
+  "    with open(info_file, \"wb\") as info_dumper:\n            write_int(total_assignments, info_dumper)\n            write_int(polya_assignments, info_dumper)\n            write_list(list(all_read_groups), info_dumper, write_string)",
+  expect="silent", note="explicit close replaced by with")
+M("c07-silent-rename-helper-var", "C07", DSP, "    aggregator.close()\n    tmp_gff_printer.close()\n    tmp_extended_gff_printer.close()\n    sqanti_t2t_printer.close()",
+  "    for writer in (aggregator, tmp_gff_printer):\n        pass\n    aggregator.close()\n    tmp_extended_gff_printer.close()\n    sqanti_t2t_printer.close()\n    tmp_gff_printer.close()",
+  expect="silent", note="close calls reordered")
